@@ -1,4 +1,5 @@
 import ACModel.Props.C05
+import ACModel.Proofs.Frame
 /-
   C07 — fit/transform coherence, row-wise purity and absence of side effects
 
@@ -129,10 +130,83 @@ theorem qual_length (f : String) (g : GL) (table : LabelTable) (strNan strDefaul
   · cases h
   · injection h with h; subst h; simp
 
+/-! ## The whole frame
+
+  The three statements above are about one column.  The next ones are about `Disc.transform`, the
+  model of `BaseDiscretizer.transform` on a whole DataFrame (casting of `features_casting`, the
+  missing-column check, quantitative features, qualitative features, missing values re-instated). -/
+
+/-- the rows of every column at the given positions -/
+def pickF (idx : List Nat) (x : Frame) : Frame := FrameLemmas.mapF (pick idx) x
+
+/-- **Row-wise purity of `transform` on whole frames.**  If a frame is accepted, the frame made of
+    any selection of its rows (subset, permutation, repetition; the same positions in every
+    column) is accepted too, and its output is the same selection of the rows of the full output
+    — for every fitted state, whatever it contains. -/
+theorem transform_frame_rowwise (s : Disc) (x out : Frame) (h : s.transform x = .ok out) (idx : List Nat) :
+    s.transform (pickF idx x) = .ok (pickF idx out) :=
+  FrameLemmas.transform_map s (pick idx)
+    (fun f g t c c' hc => quant_rowwise f g t s.strNan c c' hc idx)
+    (fun f g t c c' hc => qual_rowwise f g t s.strNan s.strDefault c c' hc idx)
+    (fun g c => pick_map idx c g) x out h
+
+/-- **The output keeps the input's columns**, in the same order (after the copies that
+    `features_casting` asks for have been added: none for discretizers and carvers that cast each
+    feature to itself). -/
+theorem transform_keeps_columns (s : Disc) (hs : s.Shape) (x0 x out : Frame)
+    (hc : s.castFeatures x0 = .ok x) (h : s.transform x0 = .ok out) : akeys out = akeys x :=
+  (FrameLemmas.transform_spec s hs x0 x out hc h).1
+
+/-- **Columns that are not fitted features come out unchanged.** -/
+theorem transform_nonfeature_unchanged (s : Disc) (hs : s.Shape) (x0 x out : Frame)
+    (hc : s.castFeatures x0 = .ok x) (h : s.transform x0 = .ok out) (n : String)
+    (h1 : n ∉ s.quant) (h2 : n ∉ s.qual) (h3 : ∀ fd ∈ s.featDropna, fd.1 ≠ n) :
+    aget? out n = aget? x n := by
+  obtain ⟨_, hcols⟩ := FrameLemmas.transform_spec s hs x0 x out hc h
+  cases hx : aget? x n with
+  | none => exact (hcols n).2 hx
+  | some c =>
+    obtain ⟨c', hct, ho⟩ := (hcols n).1 c hx
+    unfold colTransform at hct
+    simp only [h1, h2, if_false, Except.bind, FrameLemmas.find_none_of_not_mem s.featDropna n h3] at hct
+    injection hct with hct
+    subst hct
+    exact ho
+
+/-- a discretizer or carver whose features are cast to themselves adds no column at all -/
+theorem castFeatures_self (s : Disc) (x : Frame) (h : s.casting.all (fun c => c.2 == [c.1]) = true) :
+    s.castFeatures x = .ok x := by
+  unfold castFeatures
+  simp [h]
+
 /-! ## Non-vacuity -/
 example : pick [2, 0, 0] [some (.num 1), none, some (.num 3)] = [some (.num 3), some (.num 1), some (.num 1)] := by
   decide
 example : transformQuantCol "f" (GL.ofList [.num 1, .inf]) [(.num 1, .str "a"), (.inf, .str "b")] none
     [some (.num 0), some (.num 2)] = .ok [some (.str "a"), some (.str "b")] := by decide
+
+example : pickF [1, 0] [("f", [some (.num 1), some (.num 2)]), ("other", [some (.str "a"), none])] =
+    [("f", [some (.num 2), some (.num 1)]), ("other", [none, some (.str "a")])] := by decide
+
+/-- a fitted state with one quantitative and one qualitative feature (labels computed by `fit`) -/
+def exState : Disc :=
+  { features := ["q", "k"], quant := ["q"], qual := ["k"],
+    orders := [("q", GL.ofList [.num 1, .inf, .str "__NAN__"]), ("k", GL.ofList [.str "a", .str "b"])],
+    outFloat := true, strNan := some "__NAN__", strDefault := some "__OTHER__", dropna := false,
+    featDropna := [("q", false), ("k", false)], lpv := [], casting := [("q", ["q"]), ("k", ["k"])] }
+def exFrame : Frame := [("id", [some (.num 7), some (.num 8), some (.num 9)]),
+  ("q", [some (.num 0), none, some (.num 5)]), ("k", [some (.str "b"), some (.str "a"), some (.str "b")])]
+
+-- the hypotheses of the frame theorems are met by a concrete fitted state and frame: `transform` succeeds, missing values
+-- are re-instated (dropna=False), the non-feature column `id` is untouched, and selecting rows commutes
+example : (exState.fit.bind fun s => s.transform exFrame) =
+    .ok [("id", [some (.num 7), some (.num 8), some (.num 9)]),
+         ("q", [some (.num 0), none, some (.num 1)]), ("k", [some (.num 1), some (.num 0), some (.num 1)])] := by
+  decide +kernel
+example : (exState.fit.bind fun s => s.transform (pickF [2, 2, 0] exFrame)) =
+    .ok (pickF [2, 2, 0] [("id", [some (.num 7), some (.num 8), some (.num 9)]),
+         ("q", [some (.num 0), none, some (.num 1)]), ("k", [some (.num 1), some (.num 0), some (.num 1)])]) := by
+  decide +kernel
+example : exState.Shape := ⟨by decide, by decide, by decide⟩
 
 end C07
